@@ -88,8 +88,10 @@ def gen_case(c, g):
             desc["actions"].append(dict(a="submit", n=r, init=init))
         else:
             desc["actions"].append(dict(a="seal", n=r))
-            if c.rng.random() < 0.2:
-                # identified, unsealed, modified and sealed again
+            if c.rng.random() < 0.2 and len(roots) == 1:
+                # identified, unsealed, modified and sealed again.  Only with a single sealed root: __unseal__ is an
+                # internal helper that unseals what is reachable from its node; used on a node that ANOTHER sealed
+                # configuration reaches it breaks the closure of the sealed set by construction (not a defect of seal)
                 desc["actions"].append(dict(a="ids", n=r))
                 desc["actions"].append(dict(a="unseal", n=r))
                 slots = [(s, kd) for s, kd in SLOTS[desc["nodes"][r]["cls"]].items() if s not in READONLY and s != "ddd"]
